@@ -49,6 +49,15 @@ pub fn install_panic_hook() {
     }));
 }
 
+/// Run `f`, which is *documented* to panic for some arguments; None when it did. The panic
+/// record of the run is left as it was, so a later real panic is still attributed correctly.
+pub fn expect_panic<T>(f: impl FnOnce() -> T) -> Option<T> {
+    let saved = LAST_PANIC.with(|p| p.borrow_mut().take());
+    let r = catch_unwind(AssertUnwindSafe(f)).ok();
+    LAST_PANIC.with(|p| *p.borrow_mut() = saved);
+    r
+}
+
 #[derive(Clone, Debug, Default)]
 pub struct Outcome {
     pub digest: u64,
